@@ -13,6 +13,7 @@ Representation reminders (see engine/mirx/src/main.rs):
 import glob
 import json
 import os
+import pickle
 import re
 from collections import defaultdict, deque
 
@@ -208,7 +209,18 @@ def _strip_trait(t):
     return t[:i] + ("<" + ", ".join(args) + ">" if args else "")
 
 
+_SHORT = {}
+
+
 def short_name(name):
+    r = _SHORT.get(name)
+    if r is None:
+        r = _short_name(name)
+        _SHORT[name] = r
+    return r
+
+
+def _short_name(name):
     """generic-free form of a pretty def path:
     `a::B::<T>::f` -> `a::B::f`;  `<a::B<'_, T> as c::D<E<F>>>::f` -> `<a::B as c::D<E>>::f`"""
     if name.startswith("<") and not name.startswith("<impl "):
@@ -503,14 +515,34 @@ class Program:
         files = sorted(glob.glob(os.path.join(factdir, "*.jsonl")))
         if not files:
             raise RuntimeError("no fact files in %s" % factdir)
-        for f in files:
-            cname = os.path.basename(f).rsplit("-", 1)[0]
-            if cname in seen_crates:
-                continue  # proc-macro crates are compiled twice
-            seen_crates.add(cname)
-            with open(f) as fh:
-                for line in fh:
-                    r = json.loads(line)
+        records = None
+        cache = os.path.join(factdir, "records.pickle")
+        if os.path.exists(cache) and os.path.getmtime(cache) >= max(os.path.getmtime(f) for f in files):
+            try:
+                with open(cache, "rb") as fh:
+                    records = pickle.load(fh)
+            except Exception:
+                records = None
+        if records is None:
+            records = []
+            for f in files:
+                cname = os.path.basename(f).rsplit("-", 1)[0]
+                if cname in seen_crates:
+                    continue  # proc-macro crates are compiled twice
+                seen_crates.add(cname)
+                with open(f) as fh:
+                    for line in fh:
+                        records.append(json.loads(line))
+            try:
+                tmp = cache + ".%d" % os.getpid()
+                with open(tmp, "wb") as fh:
+                    pickle.dump(records, fh, protocol=pickle.HIGHEST_PROTOCOL)
+                os.replace(tmp, cache)
+            except Exception:
+                pass
+        if True:
+            if True:
+                for r in records:
                     k = r["k"]
                     if k == "body":
                         b = Body(r, self)
@@ -688,4 +720,11 @@ class Program:
 
 
 def load(factdir):
-    return Program(factdir)
+    import gc
+    gc.disable()
+    try:
+        p = Program(factdir)
+    finally:
+        gc.enable()
+    gc.freeze()
+    return p
